@@ -41,6 +41,8 @@ func factsMisc() {
 	f := parse("pkg/rules/rules.go")
 	emitList("rulesMatchesReturns", "pkg/rules/rules.go matches: results of its return statements in source order",
 		returnTexts(body(fn(f, "", "matches"))))
+	emitList("rulesSelectorLoop", "pkg/rules/rules.go GRPCClient.Rules: how matcherSets is allocated and the whole body of the loop over req.MatcherString (assignments, conditions, return / continue / break) in source order",
+		selectorLoop(fn(f, "GRPCClient", "Rules")))
 	emitStr("rulesMatchesTemplateScope", "pkg/rules/rules.go matches: is template.New called in the function body (one template shared by all labels) or inside the per-label closure",
 		templateScope(fn(f, "", "matches")))
 
@@ -246,6 +248,76 @@ func hashAssignments(f *ast.File) []string {
 		})
 	}
 	walk(ap.Body, "apply")
+	return r
+}
+
+// selectorLoop: the definition of matcherSets and every statement of the loop over req.MatcherString.
+func selectorLoop(fd *ast.FuncDecl) []string {
+	var r []string
+	if fd == nil || fd.Body == nil {
+		return []string{"unknown"}
+	}
+	found := false
+	ast.Inspect(fd.Body, func(n ast.Node) bool {
+		switch x := n.(type) {
+		case *ast.FuncLit:
+			return false
+		case *ast.AssignStmt:
+			if !found && len(x.Lhs) == 1 && text(x.Lhs[0]) == "matcherSets" {
+				r = append(r, text(x))
+			}
+		case *ast.RangeStmt:
+			if text(x.X) != "req.MatcherString" {
+				return true
+			}
+			found = true
+			r = append(r, "range "+text(x.X))
+			ast.Inspect(x.Body, func(m ast.Node) bool {
+				switch y := m.(type) {
+				case *ast.FuncLit:
+					return false
+				case *ast.AssignStmt:
+					r = append(r, text(y))
+				case *ast.IfStmt:
+					c := text(y.Cond)
+					if y.Init != nil {
+						c = text(y.Init) + "; " + c
+						r = append(r, "if "+c)
+						ast.Inspect(y.Body, func(k ast.Node) bool {
+							switch z := k.(type) {
+							case *ast.ReturnStmt:
+								r = append(r, "return")
+							case *ast.BranchStmt:
+								r = append(r, z.Tok.String())
+							case *ast.AssignStmt:
+								r = append(r, text(z))
+							}
+							return true
+						})
+						if y.Else != nil {
+							r = append(r, "else")
+						}
+						return false
+					}
+					r = append(r, "if "+c)
+				case *ast.ReturnStmt:
+					r = append(r, "return")
+				case *ast.BranchStmt:
+					r = append(r, y.Tok.String())
+				case *ast.IncDecStmt:
+					r = append(r, text(y))
+				case *ast.ExprStmt:
+					r = append(r, text(y))
+				}
+				return true
+			})
+			return false
+		}
+		return true
+	})
+	if !found {
+		return []string{"unknown"}
+	}
 	return r
 }
 
